@@ -2,3 +2,4 @@
 import LapyVerif.Audit.C01
 import LapyVerif.Audit.C02
 import LapyVerif.Audit.C06
+import LapyVerif.Audit.C13
